@@ -208,9 +208,20 @@ def _my_ip() -> str:
     return response
 
 
+def _recv_exactly(s: socket.socket, total: int) -> bytes:
+    # recv() may return fewer bytes than asked for, so accumulate
+    buf = b''
+    while len(buf) < total:
+        chunk = s.recv(total - len(buf))
+        if not chunk:
+            raise ConnectionError('connection closed during the handshake')
+        buf += chunk
+    return buf
+
+
 def _recv(s: socket.socket) -> str:
-    length = struct.unpack('>I', s.recv(4))[0]
-    return s.recv(length)
+    length = struct.unpack('>I', _recv_exactly(s, 4))[0]
+    return _recv_exactly(s, length)
 
 
 def _send(s: socket.socket, message: str):
